@@ -1,6 +1,10 @@
 import CantoVerif.Driver.Coinswap
+import CantoVerif.Driver.Genesis
+import CantoVerif.Driver.Replica
 /-! Line-protocol driver: `lake env lean --run Main.lean <suite> < trace` -/
 def main (args : List String) : IO UInt32 := do
   match args with
   | ["coinswap"] => CV.Drv.Coinswap.main; return 0
+  | ["genesis"] => CV.Drv.Genesis.main; return 0
+  | ["replica"] => CV.Drv.Replica.main; return 0
   | _ => IO.eprintln "usage: Main <suite>"; return 2
